@@ -37,8 +37,10 @@ SEEDS = {
 # two-grid start grids: the main grid and a second one (built by `x` edits) with disjoint / overlapping block names
 SEEDS['pair+disjoint'] = SEEDS['pair'] + [('x', ('ar', RK[0])), ('x', ('ab', Q[0], RK[0], 1.0)), ('x', ('ab', Q[1], RK[0], 1.0)),
                                           ('x', ('ac', Q[0], Q[1]))]
-# (the second grid of chain+overlap is too big for any block of the main grid: embed refuses on volume)
-SEEDS['chain+overlap'] = SEEDS['chain'] + [('x', ('ar', RK[1])), ('x', ('ab', U[1], RK[1], 600.0)), ('x', ('ab', Q[0], RK[1], 600.0)),
+# (chain+overlap: block b has atmosphere volume and block c volume 0, so minc's volume test fails on both sides; the second grid
+#  is too big for the ordinary block a: embed refuses on volume, or on the common name b)
+SEEDS['chain+overlap'] = [('ar', RK[0]), ('ar', RK[1]), ('ab', U[0], RK[0]), ('ab', U[1], RK[0], 1.e25), ('ab', U[2], RK[1], 0.0),
+                          ('ac', U[0], U[1]), ('ac', U[1], U[2])] + [('x', ('ar', RK[1])), ('x', ('ab', U[1], RK[1], 600.0)), ('x', ('ab', Q[0], RK[1], 600.0)),
                                            ('x', ('ac', U[1], Q[0]))]
 TWO_GRID = ('x', 'ad', 'em')
 
@@ -75,7 +77,8 @@ ATMOS = 1.e25
 def inel_names(g):
     """names of the blocks that fail minc's volume test 0 < volume < atmos_volume (evaluated HERE, from the
     real volumes: the model takes the outcome of the test as an input)"""
-    return tuple(b.name for b in g.blocklist if not (0. < b.volume < ATMOS))
+    # through the dict, like minc itself (self.block[blkname]): on a grid with a repeated name this is the object tested
+    return tuple(n for n, b in g.block.items() if not (0. < b.volume < ATMOS))
 
 
 def subgrid_fits(st, op):
@@ -347,7 +350,7 @@ class Watch(object):
     __slots__ = ('consistent', 'other_ok', 'strong', 'fail', 'domain_exits', 'strong_breaks')
 
     def __init__(self, st):
-        self.consistent = not inv_violations(st.main)
+        self.consistent = not inv_violations(st.main)          # no break so far
         self.other_ok = st.other is None or not inv_violations(st.other)
         self.strong, self.fail, self.domain_exits, self.strong_breaks = True, None, [], 0
 
@@ -360,7 +363,8 @@ class Watch(object):
     def before(self, st, op):
         return classify(st, op, self.other_ok) if self.consistent else (True, None)
 
-    def after(self, st, op, t, dom, key):
+    def after(self, st, op, t, dom, key, mark=True):
+        """returns the verdict of the statement on the main grid after this step"""
         if op[0] == 'x' and self.other_ok and not st.shared:
             # the second grid is a t2grid under edit like any other until it is added / embedded
             v = inv_violations(st.other)
@@ -376,6 +380,9 @@ class Watch(object):
                 else: self.domain_exits.append(key)
             elif self.strong and not rock_identity_ok(st.main):
                 self.strong = False; self.strong_breaks += 1
+            return not v
+        if mark: return not inv_violations(st.main, limit=1)   # after the first break: only the verdict, for the comparison with the model's
+        return True
 
 
 def is_dual(ops):
@@ -398,8 +405,8 @@ def run_impl_sequence(st, ops, hash_mode=False, dual=None):
             break
         out.steps += 1
         d = dump_st(st, dual)
-        out.obs.append(adler(d) if hash_mode else d)
-        w.after(st, op, t, dom, key)
+        ok = w.after(st, op, t, dom, key, mark=not hash_mode)
+        out.obs.append(adler(d) if hash_mode else d if ok else d + '!')
     out.fail, out.domain_exits, out.strong_rock_breaks = w.fail, w.domain_exits, w.strong_breaks
     return out
 
@@ -497,6 +504,9 @@ def alphabet(st, n):
                 ops.append(op + (subgrid_fits(st, op),))
             op = ('em', 'o', present[-1], onames[-1])
             ops.append(op + (subgrid_fits(st, op),))
+            if len(present) >= 3:
+                op = ('em', 'f', present[1], onames[-1])
+                ops.append(op + (subgrid_fits(st, op),))
             op = ('em', 'f', present[0], 'zzzzz')                           # the connection names a block of neither grid
             ops.append(op + (subgrid_fits(st, op),))
     return ops
@@ -543,8 +553,22 @@ def record(stats, case, ops_run, out, line):
     stats.distinct.append(zlib.crc32(line.encode()) ^ (len(line) << 32))
 
 
+def wait_driver(exe):
+    """the sweeps start while Coq is still compiling: `exe` is then (path, flag file); the flag file appears with
+    'ok' or 'fail' in it when the extracted driver has been built (or could not be: recorded by the builder)"""
+    if not exe or isinstance(exe, str): return exe
+    path, flag = exe
+    t0 = time.time()
+    while not os.path.exists(flag):
+        if time.time() - t0 > 2400: raise RuntimeError('the extracted model driver did not appear')
+        time.sleep(0.25)
+    with open(flag) as f: return path if f.read().strip() == 'ok' else None
+
+
 def compare(stats, cname, exe, lines, cases, expects):
     if not lines or not exe: return          # exe None: oracle-only sweep (deep search)
+    exe = wait_driver(exe)
+    if not exe: return                       # the model did not build: a proof failure is on record, the oracle goes on
     outs = vf.run_driver(exe, lines, shards=1)
     for l, c, e, o in zip(lines, cases, expects, outs):
         if o != e:
@@ -568,7 +592,7 @@ def exhaustive_worker(args):
     seed_ops = SEEDS[seedname]
     k = len(seed_ops)
     dual = is_dual(seed_ops)
-    head = '%s%d\t' % ('D' if dual else 'F', k) + '\t'.join(encode_op(o) for o in seed_ops)
+    head = ['%s%d' % ('D' if dual else 'F', k)] + [encode_op(o) for o in seed_ops]
     lines, cases, expects = [], [], []
 
     def flush():
@@ -580,7 +604,7 @@ def exhaustive_worker(args):
         out.obs, out.error, out.steps = obs, error, len(ops) - (1 if error else 0)
         out.fail, out.domain_exits, out.strong_rock_breaks = w.fail, w.domain_exits, w.strong_breaks
         case = {'init': {'kind': 'seed', 'name': seedname}, 'ops': [list(o) for o in ops]}
-        line = head + ''.join('\t' + e for e in encs)
+        line = '\t'.join(head + encs)
         record(stats, case, ops, out, line)
         lines.append(line); cases.append(case); expects.append('|'.join(obs))
         if len(stats.samples) < 3 and len(ops) == depth and not error and stats.seq % 97 == 3:
@@ -597,8 +621,8 @@ def exhaustive_worker(args):
             try: apply_op(st, op)
             except Exception as e:
                 leaf(prefix, encs, obs + ['E:' + exn_name(e)], w, (t, exn_name(e))); return   # the sequence ends at the first exception
-            obs = obs + [dump_st(st, dual)]
-            w.after(st, op, t, dom, key)
+            d = dump_st(st, dual)
+            obs = obs + [d if w.after(st, op, t, dom, key) else d + '!']
             if len(prefix) == depth:
                 leaf(prefix, encs, obs, w, None); return
         else:
@@ -852,8 +876,8 @@ def random_worker(args):
         out = Outcome()
         ops = []
         d0 = dump_st(st, dual)
-        out.obs.append(adler(d0) if hash_mode else d0)          # the state the prefix must rebuild
         w = Watch(st)
+        out.obs.append(adler(d0) if hash_mode else d0 if w.consistent else d0 + '!')          # the state the prefix must rebuild
         profname = rng.choice(['clean'] * 6 + ['mixed'] * 3 + ['hostile'] * 1)
         prof = PROFILES[profname]
         stats.lens['profile:' + profname] += 1
@@ -870,8 +894,8 @@ def random_worker(args):
                 out.error = (len(ops) - 1, exn_name(e)); out.obs.append('E:' + exn_name(e)); break
             out.steps += 1
             d = dump_st(st, dual)
-            out.obs.append(adler(d) if hash_mode else d)
-            w.after(st, op, len(ops) - 1, dom, key)
+            ok = w.after(st, op, len(ops) - 1, dom, key, mark=not hash_mode)
+            out.obs.append(adler(d) if hash_mode else d if ok else d + '!')
         out.fail, out.domain_exits, out.strong_rock_breaks = w.fail, w.domain_exits, w.strong_breaks
         case = {'init': init, 'ops': [list(o) for o in ops]}
         line = '%s%d\t' % ({(0, 0): 'F', (0, 1): 'H', (1, 0): 'D', (1, 1): 'E'}[(int(dual), int(hash_mode))], len(prefix) - 1) + \
@@ -962,6 +986,7 @@ def sweep(ctx, exe, plan_exh, n_random, maxlen, sizes, label='', meanwhile=None)
         res = [(kind, pool.apply_async(exhaustive_worker if kind == 'e' else random_worker, (a,))) for kind, _, a in jobs]
         if meanwhile is not None: meanwhile()
         for kind, r in res: total[kind].merge(r.get(timeout=7200))
+    exe = wait_driver(exe)
     for kind, cname, oname in (('e', 'exhaustive-short-sequences', 'Inv-after-every-step(exhaustive)'),
                                ('r', 'random-sequences-on-fromgeo-grids', 'Inv-after-every-step(random)')):
         st = total[kind]
@@ -1130,7 +1155,9 @@ def run(ctx):
                     'minc without its geometry: the volume test 0 < volume < atmos_volume and embed\'s "sub-grid fits" test are inputs of the model, evaluated '
                     'by this harness from the real volumes); its agreement with t2grids.py is TESTED on this run (canonical dump after every step), not proved',
                     'extraction: ExtrOcamlBasic + ExtrOcamlString, OCaml 4.13.1, ocaml/main.ml; PTBase.Wire helpers',
-                    'the Python statement of the invariant in tools/props/C08.py (inv_violations) and its classifier of inputs (classify)']
+                    'the Python statement of the invariant in tools/props/C08.py (inv_violations): its verdict is compared on this run, after every fully dumped step, '
+                    'with the verdict of the Coq test inv_b on the model state (inv_test_decides: inv_b g = true <-> Inv g), so it is trusted only on the hashed large-grid steps; '
+                    'its classifier of inputs (classify)']
     ctx.assumptions += ['arguments are well-formed: add_block receives a block whose rock type object is grid.rocktype[name]; add_connection receives the '
                         'grid\'s current block objects; names are non-empty strings over [A-Za-z0-9 ]; fix_blockname is the identity on every name used '
                         '(then rename_blocks(fix_blocknames=True) and (False) coincide: both are exercised on the implementation)',
@@ -1140,17 +1167,28 @@ def run(ctx):
                         'editing an operand edits the result behind its back; such edits are run for the model/implementation comparison and not held against the statement); '
                         'minc: the MINC geometry (proximity function, its inversion) is valid and is not modelled; t2data-level readers are not covered']
     ctx.stage()
-    ok = ctx.coq_build()
-    ctx.log('coq build done: %d theorems' % len(ctx.theorems))
-    exe = vf.build_driver(ctx)
-    ctx.log('driver built')
+    flag = os.path.join(ctx.build, 'drv.flag')
+    built = {}
+
+    def build_then_combine():
+        """runs in this process while the sweep workers execute the implementation side: Coq build, driver,
+        then the implementation-only oracle for the grid-combining edits"""
+        try:
+            built['ok'] = ctx.coq_build(props=('Props.v', 'Props2.v'))
+            ctx.log('coq build done: %d theorems' % len(ctx.theorems))
+            built['exe'] = vf.build_driver(ctx)
+            ctx.log('driver built' if built['exe'] else 'driver NOT built')
+        finally:
+            with open(flag + '.tmp', 'w') as f: f.write('ok' if built.get('exe') else 'fail')
+            os.replace(flag + '.tmp', flag)
+        extended_edits(ctx, 1500 if ctx.thorough else 200)
     if ctx.thorough:
         plan = [('empty', 4), ('pair', 3), ('chain', 3), ('ring', 3), ('pair+disjoint', 3), ('chain+overlap', 3)]
         nrand, sizes = 3000, ['small'] * 5 + ['medium'] * 3 + ['large'] * 2
     else:
         plan = [('empty', 3), ('pair', 3), ('chain', 2), ('ring', 2), ('pair+disjoint', 2), ('chain+overlap', 2)]
         nrand, sizes = 320, ['small'] * 6 + ['medium'] * 3 + ['large']
-    tot = sweep(ctx, exe, plan, nrand, 60, sizes, meanwhile=lambda: extended_edits(ctx, 1500 if ctx.thorough else 200))
+    tot = sweep(ctx, (os.path.join(ctx.build, 'drv'), flag), plan, nrand, 60, sizes, meanwhile=build_then_combine)
     ctx.extra['exhaustive'] = True
     ctx.extra['input_distribution'] = {
         'exhaustive': {'sequences': tot['e'].seq, 'op_kinds': dict(tot['e'].opk), 'endings': dict(tot['e'].endk)},
